@@ -16,7 +16,7 @@ for id in $ids; do
     if [ $rc -eq 1 ]; then
       subs=$(echo "$o" | grep -A1 "^VIOLATION" | grep "sub-check" | sed -E 's/.*sub-check ([a-z_0-9]+):.*/\1/' | sort -u | paste -sd, )
       caught="$caught $p[$subs]"
-      [ -z "$first" ] && first=$(echo "$o" | grep -A1 "^VIOLATION" | grep "sub-check" | head -1 | cut -c1-260 | sed 's/|/\\|/g')
+      [ -z "$first" ] && first=$(echo "$o" | grep -A1 "^VIOLATION" | grep "sub-check" | head -1 | cut -c1-260 | iconv -f utf-8 -t utf-8 -c | sed 's/|/\\|/g')
     elif [ $rc -ne 0 ]; then caught="$caught $p[exit $rc]"; fi
   done
   git -C /repo checkout -- . ; git -C /repo clean -fdq -- src py tests
